@@ -758,6 +758,24 @@ func (o *convPipe) Judge(c *Ctx, w *Worker, cs *Case) *Finding {
 		}
 		if ok, d := sameOutput(first, out); !ok {
 			site := "several-sites"
+			{
+				// every map site canonical: what remains seeded is the goroutine schedule, the
+				// select order, the clock and the process-wide random generator
+				probe := cloneCase(cs)
+				probe.Steps = []Step{cs.Steps[0], cs.Steps[i]}
+				probe.Steps[0].Files = stepFiles(cs, 0)
+				probe.Steps[1].Only = []int{-1}
+				c.RunStep(w, probe, 0, 60_000_000, false)
+				collectOutput(w, Result{})
+				r2 := c.RunStep(w, probe, 1, 60_000_000, true)
+				if ok2, _ := sameOutput(first, collectOutput(w, r2)); !ok2 {
+					site = "clock-or-random-source"
+					if res.SchedEvts > 0 {
+						site = "goroutine-schedule"
+					}
+					return &Finding{Sig: "nondet@" + site, What: fmt.Sprintf("converting the same input twice gives different output although every map is iterated in canonical order (schedule %d %s vs canonical): %s", i, cs.Steps[i].Sched, d)}
+				}
+			}
 			for _, s := range res.Sites {
 				if s.MaxN < 2 {
 					continue
